@@ -55,8 +55,10 @@ Definition find_ent (id : Z) (es : list entry) : option entry := find (fun e => 
 
 (* ------------------------------------------------------------------ INSERT *)
 Definition has_key (sch : schema) (r : row) : bool := keyed sch && negb (is_null (key_of r)).
+(* NOT NULL validation, unique-index probe, record building (a text value in a numeric column
+   fails there: "column n is not a variable column") -- any of them ends the statement *)
 Definition ins_row_ok (sch : schema) (st : tstate) (r : row) : bool :=
-  nn_ok sch r && negb (has_key sch r && idx_mem (key_of r) (kidx st)).
+  row_fits (s_tys sch) r && nn_ok sch r && negb (has_key sch r && idx_mem (key_of r) (kidx st)).
 Definition ins_write (sch : schema) (st : tstate) (r : row) : tstate :=
   mkT (ents st ++ [mkEnt (nextid st) false r]) (rcount st)
       (if has_key sch r then kidx st ++ [(key_of r, nextid st)] else kidx st)
@@ -70,7 +72,7 @@ Fixpoint ins_loop (sch : schema) (st : tstate) (rows : list row) (n : Z) : bool 
 Definition add_count (st : tstate) (n : Z) : tstate := mkT (ents st) (rcount st + n) (kidx st) (nextid st).
 
 Definition do_insert (fx : bool) (sch : schema) (st : tstate) (rows : list row) (ret : bool) : result * tstate :=
-  if forallb (row_fits (s_tys sch)) rows then
+  if forallb (row_known (s_tys sch)) rows then
     match ins_loop sch st rows 0 with
     | (true, st', n) => (RAff n (ret_of ret rows), add_count st' n)
     | (false, st', _) => (RErr, if fx then st else st')
@@ -258,6 +260,7 @@ Definition step (fx : bool) (sch : schema) (st : tstate) (s : stmt) : result * t
   | SDelete w ret => do_delete fx sch st w ret
   | SUpdate sets w ret => do_update fx sch st sets w ret
   | STruncate => do_truncate fx st
+  | SMissing => (RErr, st)
   end.
 
 Definition obs_of (r : result) (st : tstate) : obs := mkObs r (visible st) (count_star st).
@@ -313,6 +316,7 @@ Definition stmt_class (sch : schema) (st : tstate) (s : stmt) : Z :=
            | _ => 0
            end
   | STruncate => if existsb e_del (ents st) then 3 else 0
+  | SMissing => 0
   end
   end.
 (* the class of a history: the class of its first statement that is in one *)
